@@ -1250,10 +1250,24 @@ static void run_one(void)
         }
         cmb_process_initialize(&warm_proc, "W", warm_body, NULL, 0);
         cmb_process_start(&warm_proc);
-        while (cmb_event_execute_next()) {
+        if (!strcmp(vx_opt("life1", "cut"), "done")) {
+            /* the first life runs to its end: the process returns, what it held goes back */
+            while (cmb_event_execute_next()) {
+            }
+            cmb_process_terminate(&warm_proc);
+            terminate_objects(false);
         }
-        cmb_process_terminate(&warm_proc);
-        terminate_objects(false);
+        else {
+            /* the first life is cut off in the middle (a run stopped at its end time): the process is suspended holding
+             * the resource and pool units, the buffer and the queues are not empty, everything is still recording */
+            const struct cmi_hashheap *q1 = cmi_verif_event_queue();
+            while (q1->heap_count > 0 && q1->heap[1].dsortkey < des_t0 + 0.5 && cmb_event_execute_next()) {
+            }
+            cmb_event_queue_clear();
+            terminate_objects(false);
+            free(warm_proc.core.stack);
+            warm_proc.core.stack = NULL;
+        }
         cmb_event_queue_terminate();
         reused = true;
         run_one();
